@@ -30,7 +30,8 @@ class Contract:
                  assigns_fields=None, types=None, ret=None, result_shape=None, raises=None,
                  may_raise=False, consts=None, callee_alias=None, spec_funcs=None,
                  check_bounds=True, div_side=True, assumed=False, source="", shapes=None,
-                 notes="", abstract_fp=True, ghost_decl=None, ghost_after=None, gen=None, spec_src=None):
+                 notes="", abstract_fp=True, ghost_decl=None, ghost_after=None, gen=None, spec_src=None,
+                 axioms=(), assume_asserts=None):
         self.name = name  # 'util._constrain_ages'
         self.mode = mode
         self.requires = [c.expr if isinstance(c, Clause) else c for c in requires]
@@ -55,6 +56,8 @@ class Contract:
         self.shapes = dict(shapes or {})  # param -> list of ints/None/param-size names
         self.params = None  # filled from the AST
         self.notes = notes
+        self.axioms = list(axioms)  # definitional axioms of spec functions (assumed at entry)
+        self.assume_asserts = dict(assume_asserts or {})  # source text of a real-code assert -> reason it is NOT proved
         self.gen = gen  # name of the concrete input generator in rt/gens.py
         self.spec_src = dict(spec_src or {})  # concrete (numpy) versions of spec_funcs: 'lambda env, ...: ...'
         self.ghost_decl = dict(ghost_decl or {})  # name -> (kind, [shape exprs])
